@@ -1059,7 +1059,13 @@ def run_contexts(ck, cp, targ, stats):
     # negative constant where none is allowed (intconstexpr_sign_rule)
     for ln, must_fail in [("char na[-1];", True), ("char nb[(long)-1];", True), ("struct { int f : -1; } nc;", True),
                           ("_Alignas(-4) char nd;", True), ("enum { ne = -1 }; int nf = ne;", False),
-                          ("_Static_assert(-1, \"\");", False), ("char ng[0xffffffffffffffff / 0xffffffffffffffff];", False),
+                          ("_Static_assert(-1, \"\");", False),
+                          ("extern char nj[0x80000000L]; _Static_assert(sizeof nj == 2147483648, \"\");", False),
+                          ("struct B { char big[0x100000001L]; }; _Static_assert(__builtin_offsetof(struct B, "
+                           "big[0x80000000L]) == 2147483648, \"\");", False),
+                          ("extern char nk[0x7fffffffffffffffL];", False), ("extern char nl[0x8000000000000000UL / 2];", False),
+                          ("extern char nm[(long)0xffffffff80000000UL];", True),
+                          ("struct { unsigned long f : 0x100000000L >> 27; } nn;", False), ("char ng[0xffffffffffffffff / 0xffffffffffffffff];", False),
                           ("int nh(int x){switch(x){case -1: return 1;} return 0;}", False)]:
         rc, _, err = cp.run(ln + "\n", targ)
         ck.count(("ctx", "sign-rule", ln))
@@ -1296,7 +1302,8 @@ def run_malformed(ck, cp, targ, stats):
              "int f(int x){switch(x){case 1/0: return 1;} return 0;}", "struct { int f : 1/0; } s;", "_Alignas(1/0) char c;",
              "long x = (long)(0.0/0.0);", "unsigned long x = (unsigned long)(0.0/0.0);", "long x = (long)1e19;",
              "long x = (long)-1e19;", "unsigned long x = (unsigned long)-1.0;", "unsigned long x = (unsigned long)1.9e19;",
-             "long x = (long)(1.0/0.0);", "int x = (int)(1e300*1e300);", "char a[(long)1e30];",
+             "long x = (long)(1.0/0.0);", "long x = (long)0x1p63;", "unsigned long x = (unsigned long)0x1p64;",
+             "long x = (long)-0x1.0000000000001p63;", "int x = (int)0x1p63f;", "unsigned x = (unsigned)-1.0f;", "int x = (int)(1e300*1e300);", "char a[(long)1e30];",
              "int x = 0 ? 1/0 : 2/0;", "int x = 2147483647 + 1 - 1/0;"]
     for p in progs:
         rc, out, err = cp.run(p + "\n", targ)
